@@ -218,7 +218,25 @@ def _arity(ck, fx):
             ("dispatch_null_method", "ne(len(argument_pointers), 1)", "null built-ins"),
             ("dispatch_integer_method", "ne(len(argument_pointers), 1)", "integer built-ins"),
             ("dispatch_boolean_method", "ne(len(argument_pointers), 1)", "boolean built-ins")]
+    # primitive built-ins: decided through the dispatch entry with 0, 1 and 2 arguments (any internal structure)
+    from . import c09
+    prim_done = set()
+    for tname, what, probe in (("null", "null built-ins", "=="), ("integer", "integer built-ins", "+"), ("boolean", "boolean built-ins", "&")):
+        try:
+            res = {}
+            for n_args in (0, 1, 2):
+                paths = c09.arity_paths(fx, tname, probe, n_args)
+                succ = [p for p in paths if p["out"][0] == "val" and isinstance(p["out"][1], tuple) and p["out"][1][0] == "ok"]
+                res[n_args] = (len(succ), len(paths))
+            ok = res[0][0] == 0 and res[2][0] == 0 and res[1][0] > 0 and res[0][1] > 0 and res[2][1] > 0
+            ck.ob("R14.arity", what, ok, "", "`%s` through the dispatch entry: successful paths with 0 / 1 / 2 arguments = %d / %d / %d (only exactly one argument may succeed)" % (
+                probe, res[0][0], res[1][0], res[2][0]))
+            prim_done.add(what)
+        except Exception as e:  # noqa — fall back to the handler-level rule below
+            pass
     for name, text, what in rows:
+        if what in prim_done:
+            continue
         ex, paths, err = V.handler_paths(fx, name)
         if not ck.anchor("R14.arity", name, paths):
             continue
